@@ -35,7 +35,7 @@ def gen_perturbation(rng, rl):
         elif k == "clock":
             env["clock_jumps"] = {str(rng.randint(1, 40)): rng.choice([-3600.0, 86400.0, -1e9, 0.5]) for _ in range(rng.randint(1, 3))}
         elif k == "sched":
-            env["sched"] = {"mode": rng.choice(["random", "pct", "mainfirst", "othersfirst"]), "seed": rng.randrange(2 ** 31), "p_line": 0.0}
+            env["sched"], env["trace_lines"] = calsim.gen_sched(rng, True)
     return env
 
 
@@ -69,6 +69,8 @@ def compare(base, other, label, res: Result):
     if len(base.op_results) != len(other.op_results):
         res.add("outcome-differs", label, "different number of completed operations")
         return
+    if other.env.get("real_pool"):
+        return          # the real pool is not instrumented: histories and return values were compared above
     if calls_signature(base) != calls_signature(other):
         a, b = calls_signature(base), calls_signature(other)
         k = next((i for i, (x, y) in enumerate(zip(a, b)) if x != y), min(len(a), len(b)))
@@ -108,6 +110,9 @@ class C01(Check):
                "sim_seed": rng.randrange(2 ** 31)}
         if rng.random() < (0.05 if tier == "quick" else 0.02):
             scn["hashseed"] = str(rng.randrange(1, 2 ** 32))      # twin in a fresh interpreter with another PYTHONHASHSEED
+        if rng.random() < (0.015 if tier == "quick" else 0.01):
+            # confirmation of the SimParallel stub: the same run on real joblib/loky worker processes
+            scn["perturbations"].append({"real_pool": True, "n_jobs": rng.choice([2, 4])})
         return scn
 
     def run(self, scn):
